@@ -56,7 +56,7 @@ def run(ctx):
                 '(B) incoherent dedispersion on every radio class, 1..8 channels, 3 alignments, reference inside / at the edge / '
                 'outside the band, lengths 30..400, with and without start time, trailing dims, time-and-channel coded data; '
                 'degenerate crops (delays beyond the signal). non-trivial: non-zero delays; distinct by all parameters.')
-    ctx.trusted = ['Coq 8.16.1 kernel; vm_compute', 'translator T2 (dispersion literal 2.41e-4)', 'astropy unit arithmetic within 1e-13 relative',
+    ctx.trusted = ['translator T5 translate/py_disp2coq.py (unit algebra: time_delay, sample_delay, bookkeeping of incoherent_dedispersion; other statements pinned)', 'Coq 8.16.1 kernel; vm_compute', 'translator T2 (dispersion literal 2.41e-4)', 'astropy unit arithmetic within 1e-13 relative',
                    'np.round = round half to even (modelled)']
     ctx.assumptions = ['cases whose exact delay lies within 1e-9*(1+|d|) of a half-integer are regenerated (float noise decides the rounding)']
     ctx.regen()
